@@ -177,10 +177,12 @@ fn main() {
                 _ if engine == "e2e-poll" => e2e::replay_poll(case),
                 _ if engine == "e2e-isolation" => e2e::replay_isolation(case),
                 _ if engine == "e2e-err-text" => e2e::replay_err_text(case),
+                _ if engine == "e2e-paid-earlier" => e2e::replay_paid_earlier(leaked, case),
                 _ if engine == "e2e-inflight-notify" => e2e::replay_inflight_notify(case),
                 _ if engine == "e2e-config" => props::c19::replay(case),
                 _ if engine == "e2e-slow-pay" => e2e::replay_slow_pay(case),
                 _ if engine == "par" => props::par::replay(leaked, case),
+                _ if engine == "par-many" => props::par::replay_many(case),
                 _ if engine == "fuzz-request" => {
                     let bytes = hex::decode(case["input"].as_str().unwrap_or("")).unwrap_or_default();
                     let before = PANICS.with(|p| p.get());
